@@ -72,8 +72,9 @@ def gen_session(rng, kind, idx):
         'local_as': local_as, 'peer_as': peer_as, 'peer_asn4': peer_asn4,
         'addpath': [list(f) for f in addpath],
         'msg': 4096 if idx % 2 == 0 else 65535,
-        'local': '2001:db8:9::7' if v6 else '10.9.8.7',
-        'peer': '2001:db8:9::1' if v6 else '10.9.8.1',
+        # every session has its own local address: "next-hop self" must become THAT address
+        'local': f'2001:db8:9:{idx:x}::7' if v6 else f'10.9.{idx}.7',
+        'peer': f'2001:db8:9:{idx:x}::1' if v6 else f'10.9.{idx}.1',
         'extnh': idx % 4 == 1,
     }
 
@@ -393,14 +394,31 @@ def run_impl(sess, route, text):
 
     from exabgp.bgp.message.update.collection import RoutedNLRI, UpdateCollection
 
+    parsed = parse_once(sess, text)
+    if not isinstance(parsed, list):
+        return parsed
+    return encode_parsed(sess, route, parsed[0])
+
+
+def parse_once(sess, text):
+    """-> [Route] | ('refused', why) | ('exc', ...)"""
     try:
         routes = sess.conf.parse_route_text(text)
     except Exception as e:  # an exception out of the parser is an observation (C18's subject)
         return ('exc', type(e).__name__, str(e)[:200], 'parse_route_text')
     if len(routes) != 1:
         return ('refused', f'{len(routes)} routes: {str(sess.conf.error)[:160] if hasattr(sess.conf, "error") else ""}')
+    return routes
+
+
+def encode_parsed(sess, route, parsed_route):
+    """resolve_self + messages() of an already parsed Route object for one session"""
+    import traceback
+
+    from exabgp.bgp.message.update.collection import RoutedNLRI, UpdateCollection
+
     try:
-        r = sess.neighbor.resolve_self(routes[0])
+        r = sess.neighbor.resolve_self(parsed_route)
     except Exception as e:
         return ('exc', type(e).__name__, str(e)[:200], 'resolve_self')
     try:
@@ -779,8 +797,36 @@ def make_case(sd, route):
     return {'sd': sd, 'sess': sess, 'route': route, 'text': text, 'impl': run_impl(sess, route, text), 'self': self_addrs(sess)}
 
 
+def family_matches(sd, route):
+    """next-hop self is refused (TypeError, by design) when the route is not of the transport's family"""
+    return route['nh'] != 'self' or (route['afi'] == 2) == (':' in sd['local'])
+
+
+def make_group_cases(group_sds, route):
+    """ONE parsed Route object, resolved and encoded for every session of the group in the given order (what the API
+    does with `announce route ... next-hop self` sent to several peers).  Each session's bytes are a case of their own,
+    judged against THAT session's local address; `fresh` = the bytes of a fresh parse for the same session."""
+    text = render(route)
+    first = session(group_sds[0])
+    parsed = parse_once(first, text)
+    out = []
+    for gi, sd in enumerate(group_sds):
+        sess = session(sd)
+        if not isinstance(parsed, list):
+            impl = parsed
+        else:
+            impl = encode_parsed(sess, route, parsed[0])
+        if not family_matches(sd, route):
+            continue  # the refusal is expected; the session still took its turn in the order
+        out.append({'sd': sd, 'sess': sess, 'route': route, 'text': text, 'impl': impl, 'self': self_addrs(sess),
+                    'group': {'sessions': list(group_sds), 'index': gi}, 'fresh': run_impl(sess, route, text)})
+    return out
+
+
 def sig_of(case, code):
     r = case['route']
+    if 'group' in case and code == 5 and r['nh'] == 'self':
+        return 'next-hop-self-is-the-address-of-another-session'
     if code in (2, 4) and r['afi'] == 1 and r['safi'] == 2:
         return 'ipv4-multicast-sent-as-unicast'
     if code in (1, 3) and r['afi'] == 1 and r['safi'] == 2 and ([1, 2] in case['sd']['addpath']) != ([1, 1] in case['sd']['addpath']):
@@ -793,9 +839,28 @@ def sig_of(case, code):
 
 
 def replay_of(case, code=None):
-    return {'session': case['sd'], 'route_text': case['text'], 'direction': 'withdraw' if case['route']['withdraw'] else 'announce',
-            'route': case['route'], 'sent_hex': [b.hex() for b in case['impl'][1]] if case['impl'][0] == 'ok' else list(case['impl']),
-            'verdict': VERDICT.get(code, code), 'expected': expected(case['sd'], case['route'])}
+    out = {'session': case['sd'], 'route_text': case['text'], 'direction': 'withdraw' if case['route']['withdraw'] else 'announce',
+           'route': case['route'], 'sent_hex': [b.hex() for b in case['impl'][1]] if case['impl'][0] == 'ok' else list(case['impl']),
+           'verdict': VERDICT.get(code, code), 'expected': expected(case['sd'], case['route'])}
+    if 'group' in case:
+        g = case['group']
+        out['group'] = g
+        out['how'] = ('the route text is parsed ONCE; the same Route object is resolved (Neighbor.resolve_self) and encoded for the '
+                      f'sessions with local addresses {[sd["local"] for sd in g["sessions"]]} in this order; this is session #{g["index"]} '
+                      f'({case["sd"]["local"]})')
+    return out
+
+
+def case_from_replay(case):
+    """rebuild the case(s) of a replay file; -> (cases, index of the judged one)"""
+    route = dict(case['route'])
+    route['attrs'] = [tuple(a) for a in route['attrs']]
+    if 'group' in case:
+        cs = make_group_cases(case['group']['sessions'], route)
+        want = case['group']['index']
+        idx = next((i for i, c in enumerate(cs) if c['group']['index'] == want), 0)
+        return cs, idx
+    return [make_case(case['session'], route)], 0
 
 
 def check(tier, seed):
@@ -867,6 +932,52 @@ def check(tier, seed):
         if stream == 'extnh' and not sd['extnh']:
             stream = 'mixed'
         cases.append(make_case(sd, gen_route(rng, sd, stream)))
+    # one parsed route for several sessions (every tier): 3-4 sessions with different local addresses, ipv4 and ipv6
+    # transports in both orders; "next-hop self" routes, explicit next hops as controls, and the same session twice
+    v4s = [sd for sd in sds if ':' not in sd['local']]
+    v6s = [sd for sd in sds if ':' in sd['local']]
+    n_groups = 40 if quick else 600
+    group_cases = 0
+    for gi in range(n_groups):
+        a, b, c4 = rng.sample(v4s, 3)
+        x, y = rng.sample(v6s, 2) if len(v6s) >= 2 else (v6s[0], v6s[0])
+        group = [[a, x, b, y], [x, a, y, b], [a, b, c4], [x, y, a], [a, b, a], [y, x, a, b]][gi % 6]
+        r = gen_route(rng, group[0], ['plain', 'mixed'][gi % 2])
+        r['withdraw'] = gi % 7 == 6
+        if gi % 4 != 3:
+            r['nh'] = 'self'  # resolvable only by the sessions whose transport has the route's family
+        else:
+            r['nh'] = rand_ip4(rng) if r['afi'] == 1 else rand_ip6(rng)  # control: nothing to resolve
+        r['stream'] = 'shared'
+        if r['nh'] == 'self' and not any(family_matches(sd, r) for sd in group):
+            continue
+        new = make_group_cases(group, r)
+        group_cases += len(new)
+        cases.extend(new)
+    # replays of earlier failures run with everything else (each is one more case)
+    import glob as _glob
+    import os as _os
+    replayed = 0
+    for path in sorted(_glob.glob(_os.path.join(common.VERIF, 'replays', 'C01', '*.json'))):
+        try:
+            data = json.load(open(path))
+            if data.get('kind') != 'failing-input':
+                continue
+            if 'route' not in data['case']:  # a replay of a session that did not negotiate as described
+                sd_r = data['case']['session']
+                seen_r = session(sd_r).seen
+                if seen_r['local_as'] != sd_r['local_as']:
+                    run.fail_case('negotiated-local-as-not-true-local-as', 'Negotiated.local_as differs from the configured local AS',
+                                  {'session': sd_r, 'negotiated': seen_r})
+                replayed += 1
+                continue
+            rc, _ = case_from_replay(data['case'])
+            for c in rc:
+                c['route'] = dict(c['route'], stream='replay')
+            cases.extend(rc)
+            replayed += 1
+        except Exception as exc:  # a replay that can no longer be rebuilt is reported, not ignored
+            run.notes.append(f'replay {path} could not be rebuilt: {type(exc).__name__}: {exc}')
     # boundary: attribute value length 255/256, AS_PATH 255/256 ASNs, each family x ADD-PATH x direction with fixed values
     for sd in sds[:8]:
         for ln in (254, 255, 256, 257):
@@ -932,6 +1043,16 @@ def check(tier, seed):
     for k in corr_bad[:3]:
         run.notes.append('correspondence mismatch: ' + json.dumps(replay_of(cases[k]), default=str)[:1200])
 
+    # one parsed route, several sessions: what a session is sent must not depend on the sessions served before it
+    dep = [k for k, c in enumerate(cases) if 'group' in c and c['impl'] != c['fresh']]
+    for k in dep[:3]:
+        rp = replay_of(cases[k])
+        rp['fresh_parse_sent_hex'] = [b.hex() for b in cases[k]['fresh'][1]] if cases[k]['fresh'][0] == 'ok' else list(cases[k]['fresh'])
+        run.fail_case('shared-parsed-route:bytes-depend-on-sessions-served-before',
+                      'the same parsed route gives a session other bytes than a fresh parse of the same text', rp)
+    run.obligation('a parsed route resolved for several sessions gives each session the bytes of a fresh parse (no state shared '
+                   'through Neighbor.resolve_self)', not dep, json.dumps([replay_of(cases[k]).get('how') for k in dep[:3]])[:1500])
+
     # nothing sent for a route that fits easily
     silent = [k for k, c in enumerate(cases) if c['impl'][0] == 'ok' and len(c['impl'][1]) != 1
               and c['route']['stream'] not in ('big', 'aspath') and len(c['text']) < 1200]
@@ -947,7 +1068,12 @@ def check(tier, seed):
         k = min(ks, key=lambda j: len(cases[j]['text']))
         best, code = cases[k], failing[k]
         for _round in range(6):
-            cands = [make_case(best['sd'], r) for r in shrink(best['route'])]
+            if 'group' in best:  # keep the shared parse and the order of the sessions; shrink the route only
+                cands = []
+                for r in shrink(best['route']):
+                    cands += [c for c in make_group_cases(best['group']['sessions'], r) if c['group']['index'] == best['group']['index']]
+            else:
+                cands = [make_case(best['sd'], r) for r in shrink(best['route'])]
             cands = [c for c in cands if c['impl'][0] == 'ok' and len(c['impl'][1]) == 1]
             if not cands:
                 break
@@ -982,6 +1108,7 @@ def check(tier, seed):
         'ipv6_route_with_ipv4_next_hop': sum(1 for c in cases if c['route']['afi'] == 2 and c['route']['nh'] != 'self' and len(c['route']['nh']) == 4),
         'large_asn_to_2byte_peer': sum(1 for c in cases if not c['sd']['peer_asn4'] and expected(c['sd'], c['route'])['large_asn']),
         'near_message_size_limit': near_limit,
+        'shared_parsed_route_cases': group_cases, 'replays_rerun': replayed,
         'extended_length_attributes': sum(1 for c in cases for k, v in c['route']['attrs'] if k == 'attribute' and len(v[2]) > 255),
         'timing_s': {'implementation': round(t_impl, 1), 'coq_eval': round(t_eval, 1)},
     })
@@ -996,12 +1123,14 @@ def replay(path):
     case = data.get('case', data)
     run = Run('C01', 'replay', 0)
     common.standard_build(run, ['T10'])
-    route = case['route']
-    route['attrs'] = [tuple(a) for a in route['attrs']]
-    c = make_case(case['session'], route)
+    cs, idx = case_from_replay(case)
+    c = cs[idx]
     mc = (multicast_in_plain_field(), v4_nexthop_mapped(c['sess']))
-    _, corr_bad, verdicts, _ = evaluate([c], mc, 'c01_replay')
-    print(json.dumps({'text': c['text'], 'impl': [b.hex() for b in c['impl'][1]] if c['impl'][0] == 'ok' else list(c['impl']),
-                      'correspondence_ok': not corr_bad, 'verdict': VERDICT.get(verdicts.get(0), verdicts.get(0))}, indent=1))
+    _, corr_bad, verdicts, _ = evaluate(cs, mc, 'c01_replay')
+    same = c.get('fresh', c['impl']) == c['impl']
+    print(json.dumps({'text': c['text'], 'session_local': c['sd']['local'], 'how': replay_of(c).get('how'),
+                      'impl': [b.hex() for b in c['impl'][1]] if c['impl'][0] == 'ok' else list(c['impl']),
+                      'correspondence_ok': idx not in corr_bad, 'same_as_fresh_parse': same,
+                      'verdict': VERDICT.get(verdicts.get(idx), verdicts.get(idx))}, indent=1))
     common.cleanup()
-    return 0 if not corr_bad and verdicts.get(0, 0) == 0 else 1
+    return 0 if idx not in corr_bad and verdicts.get(idx, 0) == 0 and same else 1
